@@ -29,6 +29,11 @@ def run_property(st, name, strategies, func, max_examples, seed_value, classify=
     except _Fail:
         sig, case, exp, got = box["last"]  # the last failing example Hypothesis replays is the shrunk one
         st.violation(sig, case, exp, got, detail="shrunk by Hypothesis; relation " + name)
+    except getattr(hypothesis.errors, "Flaky", ()) as e:
+        # the relation failed for an example and held when Hypothesis replayed the very same example: the functions under test answered the
+        # same question differently within one process.  All generators are pure, so this is the library's doing.
+        sig, case, exp, got = box["last"] if box["last"] else ("?", {}, None, None)
+        st.violation("nondeterministic:" + name, dict(case, first_failure=sig), "the same outcome for the same arguments", got, detail=repr(e)[:300])
     except hypothesis.errors.HypothesisException as e:  # generator problem: infrastructure, not a verdict
         st.violation("infra:hypothesis:" + name, dict(error=repr(e)[:300]))
     return box["n"]
